@@ -20,6 +20,8 @@ VARIABLES tr, i,
           evals, firstEvalT, pendingV,
           progS, progF,
           cancelT, timeoutSeen, retSeen, ret,
+          ninv,             \* light runs: number of invocations of the iteration function, counted by the harness (-1: not told)
+          dupSeen,          \* an iteration id was observed twice: bookkeeping keyed by id is unreliable from then on (C03's business)
           preCancelled,     \* cancel() had RETURNED while setup was still running: triggering starts on a dead context
           mS, mF, mD, mSetup, mSetupRes, labelsBad,
           stageCur, stageOpen, setupCleanupSeen, rvOK,
@@ -28,7 +30,7 @@ VARIABLES tr, i,
           why
 vars == <<tr, i, setupSeen, ids, liveIds, liveH, endedIds, cleaned, succT, failT, sumTicks, lateSum, dropSum,
           stopSeen, limitSeen, evals, firstEvalT, pendingV, progS, progF, cancelT, timeoutSeen, retSeen, ret,
-          mS, mF, mD, mSetup, mSetupRes, labelsBad, stageCur, stageOpen, setupCleanupSeen, rvOK, lmax, skipped, preCancelled, why>>
+          mS, mF, mD, mSetup, mSetupRes, labelsBad, stageCur, stageOpen, setupCleanupSeen, rvOK, lmax, skipped, preCancelled, ninv, dupSeen, why>>
 
 Cfg == T[tr].cfg
 Min(a, b) == IF a < b THEN a ELSE b
@@ -52,7 +54,7 @@ Init == /\ tr \in 1..Len(T) /\ i = 0
         /\ ret = [s |-> 0, f |-> 0, d |-> 0, t |-> 0]
         /\ mS = 0 /\ mF = 0 /\ mD = 0 /\ mSetup = 0 /\ mSetupRes = "" /\ labelsBad = FALSE
         /\ stageCur = 0 /\ stageOpen = FALSE /\ setupCleanupSeen = FALSE /\ rvOK = FALSE /\ lmax = 0 /\ skipped = 0
-        /\ preCancelled = FALSE
+        /\ preCancelled = FALSE /\ ninv = -1 /\ dupSeen = FALSE
         /\ why = IF T[tr].err = "" THEN {} ELSE {F("MACHINERY", T[tr].err)}
 
 Unch(vs) == UNCHANGED vs
@@ -127,7 +129,7 @@ Start(e) ==
           <<e.a >= 1, "C03", "id-not-positive">>,
           <<Cfg.maxiter = 0 \/ (e.a <= Cfg.maxiter /\ Cardinality(ids) + 1 <= Cfg.maxiter), "C03", "more-invocations-than-max-iterations">>,
           \* the same fact as C05 states it: triggering stops AT the max-iterations limit
-          <<Cfg.maxiter = 0 \/ (e.a <= Cfg.maxiter /\ Cardinality(ids) + 1 <= Cfg.maxiter), "C05", "iteration-requested-beyond-the-max-iterations-limit">>,
+          <<Cfg.maxiter = 0 \/ Cardinality(ids) + 1 <= Cfg.maxiter, "C05", "iteration-requested-beyond-the-max-iterations-limit">>,
           <<Cfg.mode = "file" \/ Cfg.light \/ Cardinality(liveH) < Cfg.conc, "C04", "more-than-concurrency-in-flight">>,
           <<Cfg.light \/ e.b \notin liveH, "C04", "handle-shared-by-concurrent-iterations">>,
           <<e.d = 0, "C07", "iteration-started-in-failed-state">>,
@@ -151,14 +153,15 @@ IdRange(e) ==
           <<setupSeen = 1, "C06", "iteration-without-successful-setup">>,
           <<e.a = lmax + 1 /\ e.b >= e.a, "C03", "iteration-ids-not-unique-and-gapless">>,
           <<Cfg.maxiter = 0 \/ e.b <= Cfg.maxiter, "C03", "more-invocations-than-max-iterations">>,
-          <<Cfg.maxiter = 0 \/ e.b <= Cfg.maxiter, "C05", "iteration-requested-beyond-the-max-iterations-limit">> >>)
+          \* (C05 counts invocations, whatever ids they were given: the ids are C03's business)
+          <<Cfg.maxiter = 0 \/ ninv < 0 \/ ninv <= Cfg.maxiter, "C05", "iteration-requested-beyond-the-max-iterations-limit">> >>)
     /\ lmax' = IF e.b > lmax THEN e.b ELSE lmax
     /\ Unch(<<skipped, setupSeen, ids, liveIds, liveH, endedIds, cleaned, succT, failT, sumTicks, lateSum, dropSum, stopSeen, limitSeen,
               evals, firstEvalT, pendingV, progS, progF, cancelT, timeoutSeen, retSeen, ret, mS, mF, mD, mSetup, mSetupRes,
               labelsBad, stageCur, stageOpen, setupCleanupSeen, rvOK>>)
 
 End(e) ==
-    /\ why' = why \cup Fails(<< <<e.a \in liveIds /\ e.b \in liveH, "C06", "end-without-start">>,
+    /\ why' = why \cup Fails(<< <<dupSeen \/ (e.a \in liveIds /\ e.b \in liveH), "C06", "end-without-start">>,
                                  \* c = the id the invocation observes when its body ends (a = the id it observed at its start)
                                  <<e.b2 = "" \/ e.b2 = "same-id", "C03", "iteration-id-changed-during-the-invocation">> >>)
     \* the body has returned; its handle stays in use until the iteration's cleanups have run (Cleanup)
@@ -171,8 +174,8 @@ End(e) ==
 \* the cleanup registered by iteration e.a on handle e.b
 Cleanup(e) ==
     /\ why' = why \cup Fails(<<
-          <<e.a \in endedIds, "C06", "cleanup-before-body-ended">>,
-          <<e.a \notin cleaned, "C06", "cleanup-ran-twice">>,
+          <<dupSeen \/ e.a \in endedIds, "C06", "cleanup-before-body-ended">>,
+          <<dupSeen \/ e.a \notin cleaned, "C06", "cleanup-ran-twice">>,
           <<e.b \in liveH, "C06", "cleanup-after-its-handle-was-given-to-another-iteration">> >>)
     /\ cleaned' = cleaned \cup {e.a}
     /\ liveH' = liveH \ {e.b}          \* only now is the handle free for the worker's next iteration
@@ -244,19 +247,20 @@ Rendezvous(e) ==
               labelsBad, stageCur, stageOpen, setupCleanupSeen>>)
 
 Return(e) ==
-    LET n == IF Cfg.light THEN lmax ELSE Cardinality(ids)
+    LET n == IF Cfg.light THEN (IF ninv >= 0 THEN ninv ELSE lmax) ELSE Cardinality(ids)
         complete == ~timeoutSeen /\ liveIds = {}
         \* the trigger kept requesting until the limit stopped it
         endedByLimit == Cfg.maxiter > 0 /\ cancelT < 0 /\
                         (limitSeen \/ (Cfg.mode = "users" /\ e.c + SLACK < Cfg.maxdur_us))
     IN /\ why' = why \cup Fails(<<
             <<Cfg.light \/ ids = 1..n, "C03", "iteration-ids-not-gapless">>,
+            <<~Cfg.light \/ ninv < 0 \/ lmax = ninv, "C03", "iteration-ids-not-unique-and-gapless">>,
             <<~endedByLimit \/ n = Cfg.maxiter, "C03", "not-exactly-max-iterations">>,
             <<Cfg.light \/ ~complete \/ (e.a = succT /\ e.b = failT), "C01", "result-counts-differ-from-executed-iterations">>,
             \* same number of iterations, but reported under the wrong outcome
             <<Cfg.light \/ ~complete \/ e.a + e.b # succT + failT \/ e.b = failT, "C07", "iterations-reported-under-the-wrong-outcome">>,
             <<~Cfg.light \/ timeoutSeen \/ e.a + e.b = n, "C01", "result-counts-differ-from-invocations">>,
-            <<timeoutSeen \/ liveIds = {}, "C05", "returned-with-iterations-in-flight">>,
+            <<timeoutSeen \/ dupSeen \/ liveIds = {}, "C05", "returned-with-iterations-in-flight">>,
             <<e.d = dropSum, "C01", "result-dropped-differs-from-reported-drops">>,
             <<~(Cfg.rate_mode /\ Cfg.mode # "file" /\ Cfg.maxiter = 0 /\ lateSum = 0) \/ n + dropSum = sumTicks,
                   "C02", "request-neither-started-nor-dropped">>,
@@ -268,7 +272,7 @@ Return(e) ==
                   \/ Cfg.file_stages = 0 \/ stageCur = Cfg.file_stages, "C15", "not-every-stage-of-the-plan-was-executed">>,
             <<~Cfg.setup_fail \/ e.s # "", "C06", "failed-setup-did-not-fail-the-run">>,
             <<Cfg.pool_only \/ setupCleanupSeen, "C06", "setup-cleanup-missing-at-return">>,
-            <<Cfg.light \/ ~complete \/ cleaned = ids, "C06", "iteration-cleanup-missing-at-return">>,
+            <<Cfg.light \/ ~complete \/ dupSeen \/ cleaned = ids, "C06", "iteration-cleanup-missing-at-return">>,
             <<~Cfg.rendezvous \/ rvOK, "C04", "not-all-workers-could-run-at-once">>,
             <<e.c <= Deadline + Cfg.wait_us + 3 * SLACK, "C05", "returned-too-late">> >>)
        /\ retSeen' = TRUE /\ ret' = [s |-> e.a, f |-> e.b, d |-> e.d, t |-> e.c]
@@ -359,6 +363,9 @@ Next == /\ i < Len(T[tr].ev)
         /\ i' = i + 1 /\ UNCHANGED tr
         \* set by the one event that changes it; every other event leaves it
         /\ preCancelled' = IF T[tr].ev[i + 1].k = "cancelret" THEN (setupSeen = -1) ELSE preCancelled
+        /\ ninv' = IF T[tr].ev[i + 1].k = "invocations" THEN T[tr].ev[i + 1].a ELSE ninv
+        /\ dupSeen' = (dupSeen \/ (T[tr].ev[i + 1].k = "start" /\ T[tr].ev[i + 1].a \in ids)
+                              \/ (T[tr].ev[i + 1].k = "idrange" /\ T[tr].ev[i + 1].a <= lmax))
         /\ LET e == T[tr].ev[i + 1] IN
            CASE e.k = "setup" -> Setup(e)
              [] e.k = "eval" -> Eval(e)
